@@ -120,6 +120,21 @@ class InitFlow:
             a, b = self.lf(i["ops"][0], depth + 1), self.lf(i["ops"][1], depth + 1)
             if a is not None and b is not None and lf_is_const(b):
                 return lf_scale(a, 1 << b[0])
+        if o == "phi" and i["ops"] and all(x[0] != "i" or x[1] != i["id"] for x in i["ops"]):
+            # a merge whose incoming values all have the same linear form IS that value (the one-armed
+            # phi left behind when the other arm of `c ? a : b` was threaded away by irspec)
+            me = (0, ((("i", i["id"]), 1),))
+            busy = self.__dict__.setdefault("_phi_busy", set())
+            if i["id"] in busy or len(i["ops"]) > 4:
+                return me
+            busy.add(i["id"])
+            try:
+                arms = [self.lf(x, depth + 1) for x in i["ops"]]
+            finally:
+                busy.discard(i["id"])
+            if arms[0] is not None and all(a == arms[0] for a in arms) and all(s != ("i", i["id"]) for s, _ in arms[0][1]):
+                return arms[0]
+            return me
         return (0, ((("i", i["id"]), 1),))
 
     def _signed(self, c, bits=64):
